@@ -16,7 +16,7 @@ ID = "C13"
 TITLE = "Reception is independent of TCP segmentation"
 LEVEL = "exploration"
 RULE = (
-    "metamorphic: one console byte stream (1..6 frames of every status / answer / unknown kind, both generations) is delivered "
+    "metamorphic: one console byte stream (1..6 frames of every status / answer / unknown kind, 8 % with one frame of 255..9000 payload bytes, both generations) is delivered "
     "to the real socket once whole and once cut at generated points (0..40 cuts, all-single-bytes, many-frames-in-one-chunk) "
     "with 0, one epsilon or one tick of virtual time (= loop turns) between chunks; both deliveries must produce the same "
     "messages, once each, in order, and as many as the reference framing finds. Thorough tier additionally enumerates every "
@@ -28,7 +28,7 @@ COMPONENTS = {
     "stub": ["clock/_run_once (SimLoop)", "TCP delivery (SimNet chunks)", "console = byte source"],
 }
 ASSUMPTIONS = ["only well-formed streams are segmented here (malformed input is C06/C17)"]
-PROBES = ["c13.cut_in_prefix", "c13.cut_in_length", "c13.cut_in_crc", "c13.single_bytes", "c13.many_frames_one_chunk", "c13.turns_between_chunks"]
+PROBES = ["c13.long_frame_cut_in_tail", "c13.cut_in_prefix", "c13.cut_in_length", "c13.cut_in_crc", "c13.single_bytes", "c13.many_frames_one_chunk", "c13.turns_between_chunks"]
 EXHAUSTIVE = True
 
 
@@ -44,6 +44,9 @@ def _stream(rng, gen: int):
             frames.append(framegen.unknown_frame(rng, gen)[0])
         else:
             frames.append(framegen.frame(rng, gen)[0])
+    if rng.random() < 0.08:
+        # the length field is 16 bits wide: a frame much longer than everyday traffic, somewhere in the stream
+        frames.insert(rng.randrange(len(frames) + 1), framegen.long_frame(rng, gen)[0])
     return frames
 
 
@@ -53,12 +56,21 @@ def generate(rng, index: int, tier: str) -> dict:
     data = b"".join(frames)
     mode = rng.choice(["few", "few", "many", "bytes", "structural"])
     n = len(data)
+    longest = max(range(len(frames)), key=lambda i: len(frames[i]))
+    if len(frames[longest]) > 250:
+        mode = rng.choice(["few", "many", "structural", "tail", "tail"] + (["bytes"] if n < 1600 else []))
     if mode == "bytes":
         cuts = list(range(1, n))
     elif mode == "few":
         cuts = sorted(rng.sample(range(1, n), min(n - 1, rng.randint(1, 4))))
     elif mode == "many":
         cuts = sorted(rng.sample(range(1, n), min(n - 1, rng.randint(5, 40))))
+    elif mode == "tail":
+        # cuts in the last part of the long frame (including between its check bytes and right behind it)
+        end = sum(len(f) for f in frames[: longest + 1])
+        lo = max(1, end - rng.choice([3, 40, 600, 1100]))
+        cands = [c for c in range(lo, min(n, end + 2))]
+        cuts = sorted(rng.sample(cands, min(len(cands), rng.randint(1, 4))))
     else:
         # cuts at structurally interesting offsets of a random frame
         off = 0
@@ -71,6 +83,8 @@ def generate(rng, index: int, tier: str) -> dict:
         cands = sorted(set(c for c in cands if c))
         cuts = sorted(rng.sample(cands, min(len(cands), rng.randint(1, 6))))
     gap = rng.choice([0.0, 0.0, G.EPS, G.TICK])
+    if mode == "tail":
+        gap = rng.choice([0.0, G.EPS, G.TICK, G.TICK])
     return _scenario(gen, frames, cuts, gap, rng.choice([0.0, G.TICK]))
 
 
@@ -174,6 +188,8 @@ def execute(sc: dict) -> dict:
                     probes["c13.cut_in_length"] = 1
                 if rel == len(fr["raw"]) - 1:
                     probes["c13.cut_in_crc"] = 1
+            if len(fr["raw"]) > 1030 and len(fr["raw"]) - 1024 < rel < len(fr["raw"]):
+                probes["c13.long_frame_cut_in_tail"] = 1
         off += len(fr["raw"])
     if len(cuts) == len(data) - 1 and len(data) > 1:
         probes["c13.single_bytes"] = 1
